@@ -482,3 +482,47 @@ def hits_after(fn, start, is_target, is_barrier, barrier_blocks=()):
                 seen.add(s_)
                 work.append((s_, 0))
     return hits
+
+
+def string_guard_allows(guards, var_pred, universe):
+    """the strings u of `universe` for which every guard that tests the string variable (matched by var_pred on the
+    expression) holds: understands strcmp/str_diff(var, "lit") [also swapped], *var, var[0], through ! and comparisons
+    with constants.  Guards about anything else are ignored."""
+    def value(v, u):
+        v = v.strip()
+        if v.k == 'call' and v.callee in ('strcmp', 'str_diff') and len(v.args) >= 2:
+            a, b = v.args[0], v.args[1]
+            if var_pred(a) and b.string is not None:
+                return (u > b.string) - (u < b.string)
+            if var_pred(b) and a.string is not None:
+                return (a.string > u) - (a.string < u)
+            return None
+        if v.k == 'call' and v.callee in ('strncmp', 'str_diffn') and len(v.args) >= 3 and v.args[2].const is not None:
+            a, b, n = v.args[0], v.args[1], v.args[2].const
+            if var_pred(a) and b.string is not None:
+                return (u[:n] > b.string[:n]) - (u[:n] < b.string[:n])
+            return None
+        if v.k == 'un' and v.op == '*' and var_pred(v.args[0]):
+            return ord(u[0]) if u else 0
+        if v.k == 'idx' and var_pred(v.args[0]) and v.args[1].const is not None:
+            i = v.args[1].const
+            return ord(u[i]) if i < len(u) else (0 if i == len(u) else None)
+        return None
+    out = []
+    for u in universe:
+        ok = True
+        for c, t in guards:
+            if t not in (True, False):
+                continue
+            p = _cmp_parts(c)
+            if p is None:
+                continue
+            val = value(p[0], u)
+            if val is None:
+                continue
+            if p[1](val) != t:
+                ok = False
+                break
+        if ok:
+            out.append(u)
+    return out
